@@ -80,9 +80,19 @@ def ops_family(name, replay, tables="OT_OpsThunks"):
     return tlc_replay("MC_Ops_" + name, "MC_Ops", replay, dict(constants={"Tables": "<- " + tables}, invariants=["Emit"]))
 
 
+def c01_sim(num, depth, maxnodes):
+    st = c01_family("FX_sim", fam="FX", frags="FragsFG", leafs="FX_Leafs", comps="FX_Comps", inlines="FX_Inlines",
+                    spread="SpreadLater", maxsel=4, maxnodes=maxnodes, maxdepth=4, dirs="DirsFull", outs="OT_Abstract",
+                    inv=["Emit", "WellFormedRoot"], timeout=600)
+    st["simulate"] = "num=%d" % num
+    st["depth"] = depth
+    return st
+
+
 def c01_stages(tier, seed):
     if tier == "quick":
         return [
+            c01_sim(300, 30, 10),
             ops_family("c01", "C01"),
             c01_family("F1_q", fam="F1", leafs="F1_Leafs", maxsel=3, maxnodes=3),
             c01_family("F2_q", fam="F2", leafs="F2_Leafs", comps="F2_Comps", maxsel=2, maxnodes=5, maxdepth=2, dirs="DirsOne"),
@@ -93,6 +103,7 @@ def c01_stages(tier, seed):
             c01_family("F5_q", fam="F5", leafs="F5_Leafs", maxsel=2, maxnodes=2, dirs="DirsNone"),
         ]
     return [
+        c01_sim(20000, 40, 14),
         ops_family("c01", "C01"),
         c01_family("F1_t", fam="F1", leafs="F1_Leafs", maxsel=4, maxnodes=4),
         c01_family("F2_t", fam="F2", leafs="F2_Leafs", comps="F2_Comps", maxsel=3, maxnodes=5, maxdepth=3, dirs="DirsDyn",
